@@ -16,6 +16,7 @@ class V:
     def __init__(self, values=None):
         self.values = values
         self.spec = []          # (name, type, lo, hi)
+        self.assumes = []       # (predicate, names)
         self._seen = set()
 
     def _get(self, name, typ, default, lo=None, hi=None):
@@ -44,6 +45,17 @@ class V:
         a fixed length keeps CrossHair from forking on lengths at every comparison)"""
         return self._get(name, str, '', 0, 1)
 
+    def assume(self, pred, *names):
+        """extra precondition over named values (part of the claim; listed in evidence)"""
+        self.assumes.append((pred, names))
+
+    def filetoken(self, size_name, dig_name):
+        """size and content token of a regular file, under the real-world invariant that an
+        empty file has the digest of the empty string (token 'E')"""
+        s, d = self.size(size_name), self.dig(dig_name)
+        self.assume(_empty_inv, size_name, dig_name)
+        return s, d
+
     def choice(self, name, n):
         """concrete index in range(n) (forks the path when the value is symbolic)"""
         return sym.pick_index(self._get(name, int, 0, 0, n - 1), n)
@@ -54,10 +66,14 @@ class V:
         return lambda: sym.pick_index(raw, n)
 
 
+def _empty_inv(size, dig):
+    return size >= 1 or dig == 'E'
+
+
 def discover(build):
     v = V(None)
     build(v)
-    return v.spec
+    return v.spec, v.assumes
 
 
 def make_cond(name, build, run, judge=None, fixed=None, timeout=120, **kw):
@@ -66,7 +82,7 @@ def make_cond(name, build, run, judge=None, fixed=None, timeout=120, **kw):
     With judge=None, run(ctx) returns (ok, interesting) itself and is traced as a whole."""
     check = run
     fixed = dict(fixed or {})
-    spec = discover(build)
+    spec, assumes = discover(build)
     names = [s[0] for s in spec]
     for k in fixed:
         assert k in names, (k, names)
@@ -96,15 +112,57 @@ def make_cond(name, build, run, judge=None, fixed=None, timeout=120, **kw):
                 clauses.append(f'{n} <= {hi}')
         elif t is str:
             clauses.append(f'len({n}) == {hi}')
+    ns['_assumes'] = assumes
+    for i, (pred, anames) in enumerate(assumes):
+        ns[f'_a{i}'] = pred
+        argl = ', '.join(n if n not in fixed else f'_fixed[{n!r}]' for n in anames)
+        clauses.append(f'_a{i}({argl})')
     src += (f'def _pre({params}):\n'
             f'    return {" and ".join(clauses) if clauses else "True"}\n')
     exec(src, ns)
     body, pre = ns['_body'], ns['_pre']
+
+    def replay_real(args):
+        """stage 2: the same scenario instance as a real directory tree, unpatched gemato"""
+        from vf import realfs, modelfs
+        vals = dict(fixed)
+        vals.update(args)
+        ctx = build(V(vals))
+        ctx.world = realfs.RealWorld(ctx.fs)
+        try:
+            out = run(ctx)
+            ok, _ = judge(ctx, out)
+            return {'reproduced': not ok, 'real_outcome': repr(out)[:300]}
+        except realfs.NotMaterialisable as e:
+            return {'reproduced': None, 'note': f'not materialisable: {e}'}
+        finally:
+            modelfs.uninstall_global()
     body.__name__ = body.__qualname__ = name
     body.__module__ = check.__module__
     body.__vf_src__ = check
     pre.__vf_src__ = check
+    def compare(args):
+        from vf import realfs, modelfs
+        vals = dict(fixed)
+        vals.update(args)
+        ctx = build(V(vals))
+        om = run(ctx)
+        obs_m = _obs(ctx, om)
+        ctx2 = build(V(vals))
+        ctx2.world = realfs.RealWorld(ctx2.fs)
+        try:
+            orl = run(ctx2)
+        except realfs.NotMaterialisable:
+            return {'skip': True}
+        finally:
+            modelfs.uninstall_global()
+        return {'model': obs_m, 'real': _obs(ctx2, orl)}
+
+    real = kw.pop('real', True)
     c = Cond(name, body, pre, timeout=timeout, **kw)
+    if real and judge is not None:
+        c.replay_real = replay_real
+        c.compare = compare
     c.spec = spec
     c.fixed = fixed
     return c
@@ -116,3 +174,59 @@ def partitions(names_and_ranges):
     for n, rng in names_and_ranges:
         out = [dict(d, **{n: x}) for d in out for x in rng]
     return out
+
+
+def _obs(ctx, out):
+    """comparable view of an outcome: entries by (tag, path), handler calls as a sorted
+    list (the order of directory enumeration differs between model and real scandir)"""
+    def norm(x):
+        if hasattr(x, 'tag') and hasattr(x, 'path'):
+            return (x.tag, x.path)
+        if isinstance(x, (tuple, list)):
+            return tuple(norm(y) for y in x)
+        return x
+    ob = getattr(ctx, 'observed', None)
+    if isinstance(ob, list):
+        ob = sorted(ob)
+    return repr((norm(out), ob))
+
+
+def validate_against_real(conds, seed, per_cond=1, limit=40):
+    """Model validation: concrete instances of scenario conditions are run on the model and
+    on the same tree materialised on the real filesystem with the unpatched gemato; the
+    outcomes must agree.  Returns (agreements, details, errors)."""
+    import random
+    import inspect as _inspect
+    from vf import realfs, modelfs
+    rnd = random.Random(seed)
+    conds = [c for c in conds if getattr(c, 'replay_real', None) is not None]
+    rnd.shuffle(conds)
+    agree, details, errors = 0, [], []
+    for c in conds[:limit]:
+        sig = _inspect.signature(c.body)
+        for _ in range(per_cond):
+            for attempt in range(30):
+                args = {}
+                for k, p in sig.parameters.items():
+                    if p.annotation is int:
+                        args[k] = rnd.choice([0, 1, 1, 2, 3])
+                    elif p.annotation is bool:
+                        args[k] = rnd.random() < 0.5
+                    else:
+                        args[k] = rnd.choice(['a', 'b', 'E', 'D', 'F'])
+                if c.pre is None or c.pre(**args):
+                    break
+            else:
+                continue
+            m = c.compare(args)
+            if m.get('skip'):
+                continue
+            if m['model'] == m['real']:
+                agree += 1
+                if len(details) < 6:
+                    details.append({'condition': c.name, 'args': args,
+                                    'outcome': m['model']})
+            else:
+                errors.append(f'{c.name}: model {m["model"]} != real {m["real"]} for '
+                              f'{args}')
+    return agree, details, errors
